@@ -1496,10 +1496,10 @@ def case_c19_readonly(rng, idx, params):
 # C19b – equivalent encodings of the same candle data
 # ---------------------------------------------------------------------------------------------
 
-ENCODINGS = ["candle", "dict", "dict_caps", "dict_iso", "dict_mixed", "list_ts_last", "list_ts_first", "list_no_ts"]
+ENCODINGS = ["candle", "dict", "dict_caps", "dict_iso", "dict_mixed", "dict_extra", "list_ts_last", "list_ts_first", "list_no_ts"]
 
 
-def encode_chunk(rows, enc, single, stamps=None):
+def encode_chunk(rows, enc, single, stamps=None, extra=()):
     """rows: stream tuples; single: hand over one bare item instead of a list of items (only for one row); stamps: the datetimes to
     use instead of the whole-second ones of the rows (sub-second scenarios)"""
     stamp_of = {id(t): st for t, st in zip(rows, stamps)} if stamps is not None else None
@@ -1527,6 +1527,15 @@ def encode_chunk(rows, enc, single, stamps=None):
             d = {"open": o, "high": h, "low": l, "close": c, "volume": v}
             if stamp is not None:
                 d["timestamp"] = stamp.isoformat()
+            return d
+        if enc == "dict_extra":
+            # a row exported from an earlier run: besides the candle data it carries keys the library does not read - among them
+            # "indicators" / "sub_indicators" holding numbers under the very names the members use.  Candle data is OHLCV + stamp;
+            # whatever else the caller keeps in the dict is the caller's
+            d = {"open": o, "high": h, "low": l, "close": c, "volume": v, "note": "exported", "indicators": {n: 12345.678 for n in extra},
+                 "sub_indicators": {n: {"x": 1.0} for n in extra}}
+            if stamp is not None:
+                d["timestamp"] = stamp
             return d
         if enc == "list_ts_first" and stamp is not None:
             return [stamp, o, h, l, c, v]
@@ -1638,7 +1647,8 @@ def check_c19_enc(scn):
     maybe_remove(obj, 0)
     for j, (a, b) in enumerate(steps_of(scn)[1:]):
         enc, single = encs[j % len(encs)]
-        payload = encode_chunk(stream[a:b], enc, single, stamps=[c.timestamp for c in mk_rows(a, b)] if sub else None)
+        payload = encode_chunk(stream[a:b], enc, single, stamps=[c.timestamp for c in mk_rows(a, b)] if sub else None,
+                               extra=[n for n in ((list(obj.indicators) if target == "hexital" else [obj.name]) + ["SMA_3"])])
         flat_first = enc == "list_ts_first" and single and (b - a) == 1 and stream[a][0] is not None
         keep = list(payload) if (enc == "candle" and isinstance(payload, list)) else deepcopy(payload)
         try:
